@@ -538,7 +538,7 @@ impl ConnectionEngine {
 //@@ attr #[verifier::loop_isolation(false)]
 //@@ qmark
 //@@ subst `ConnectionStopReason::ClosedWithError(error.clone())` => `stop_reason_closed_with_error(error.clone())` rule=R11
-//@@ subst `self.connection.allocate_session(tx).map_err(Into::into)` => `self.connection.allocate_session(tx).map_err(|e: ConnAllocError| -> (o: AllocSessionError) { alloc_err_into(e) })` rule=R17
+//@@ subst `self.connection.allocate_session(tx).map_err(Into::into)` => `self.connection.allocate_session(tx).map_err(|e: ConnAllocError| -> (o: AllocSessionError) { alloc_err_into(e) })` rule=R17 unless `\.map_err\(`
 //@@ subst `.map_err(|_v0| ConnectionInnerError::IllegalState)` => `.map_err(|_v0: Result<OutgoingChannel, AllocSessionError>| -> (o: ConnectionInnerError) { ConnectionInnerError::IllegalState })` rule=optional-R5
 //@@ spec
     ensures
@@ -629,8 +629,8 @@ impl ConnectionEngine {
 //@@ subst `(mut self,` => `(&mut self,` rule=R32
 //@@ subst `self.control.close();` => `self.control.close_published(Ghost(self.connection.stop_set@ is Some));` rule=R9
 //@@ subst `self.outgoing_session_frames.close();` => `self.outgoing_session_frames.close_published(Ghost(self.connection.stop_set@ is Some));` rule=R9
-//@@ subst `self.transport.close().map_err(Into::into)` => `self.transport.close().map_err(|e: TransportError| -> (o: ConnectionInnerError) ensures o == transport_err_to_inner(e) { e.err_into() })` rule=R17
-//@@ subst `.and(__E1).map_err(Into::into)` => `.and(__E1).map_err(|e: ConnectionInnerError| -> (o: Error) ensures o == inner_to_error(e) { inner_into_error(e) })` rule=R17
+//@@ subst `self.transport.close().map_err(Into::into)` => `self.transport.close().map_err(|e: TransportError| -> (o: ConnectionInnerError) ensures o == transport_err_to_inner(e) { e.err_into() })` rule=R17 unless `\.map_err\(`
+//@@ subst `.and(__E1).map_err(Into::into)` => `.and(__E1).map_err(|e: ConnectionInnerError| -> (o: Error) ensures o == inner_to_error(e) { inner_into_error(e) })` rule=R17 unless `\.map_err\(`
 //@@ spec
     requires
         tx.owes_ok@ == (outcome is Ok && old(self).connection.st is End),             // the event loop ended with the close handshake complete (END) and no handler reported an error
